@@ -65,6 +65,25 @@ CHECKS.update({
         technique="property-based testing: rapid histories through real operators and Assembly.Deploy vs shadow-map/timer-set model; differential for AssignRanges"),
 })
 
+CHECKS.update({
+    "C02": dict(level="exploration", design="DESIGN.md section 4 C02",
+        text="One real Operator and 1..4 sender goroutines with generated sequences of events, watermarks and barriers for 1..3 checkpoints. A generated schedule picks which sender advances; a step ends when that sender's HandleEvent returned or parked in the alignment wait (reported by a verif hook). At every OperatorCheckpointComplete the handler must have applied exactly the pre-barrier events of every sender and must not have acted on post-barrier watermarks; each reported checkpoint is then restored and probed.",
+        note="The schedule is owned at the granularity of HandleEvent calls; the re-entry order of released senders is left to the Go scheduler (the oracle does not depend on it).",
+        technique="property-based testing: rapid generated schedules over real goroutines with hook-reported parking; cut-membership oracle"),
+    "C12": dict(level="exploration", design="DESIGN.md section 4 C12",
+        text="snapshots.Store over a journaling in-memory StorageLocation: generated sequences of create-checkpoint / create-savepoint / operator and runner acknowledgements (expected, duplicate, foreign; pending, stale, future ids) / restarts. A model of the pending checkpoint decides when a publication must happen (awaited on the store's CheckpointEvents) and when it must not; every published file is decoded and compared entry by entry.",
+        note="An id handed out but never published may be reused after a restart. Split states are compared as a multiset.",
+        technique="property-based testing: rapid model-based call sequences vs a pending-checkpoint model"),
+    "C13": dict(level="fault_enumeration", design="DESIGN.md section 4 C13",
+        text="snapshots.Store with the asynchronous snapshot writes and removals held and released one at a time so that publications of consecutive checkpoints overlap, retention notifications received late, clean restarts. Every storage operation is journaled; at crash points (all of them in the thorough tier, the end plus <=4 drawn ones in quick) a new Store must load exactly the newest checkpoint present in the materialised storage; no Remove may name the newest completely written checkpoint; retention notifications never go backwards. One in ten cases replays the final storage through the real LocalDirectory.",
+        note="Write/Remove are atomic in the journal; a crash inside one Write is out of scope. The newest checkpoint is determined by decoding the files, independently of their names.",
+        technique="property-based testing with crash-point enumeration over a journaled storage location; gated asynchronous steps"),
+    "C15": dict(level="exploration", design="DESIGN.md section 4 C15",
+        text="The real jobs.Job with recording fake operators and source runners, a FrozenClock and a journaling storage location: generated histories of worker starts, graceful stops, kills (heartbeat expiry), checkpoint ticks, full and partial acknowledgements and injected Deploy failures. The recorded calls are examined after every step: deployments address exactly WorkerCount registered live operators and runners and hand over the latest completed checkpoint, StartCheckpoint only reaches the current healthy assembly, ticks start checkpoints, full acknowledgement publishes a snapshot, a lost assembly is replaced when enough live workers exist.",
+        note="Liveness is bounded progress under harness-owned steps. Worker-side recovery is covered by the cluster-level check C01 when built.",
+        technique="property-based testing: rapid generated histories against recording fakes; invariants over the call history"),
+})
+
 PENDING_REASON = "check not built yet in this session; design in DESIGN.md section 4 (no other technique is substituted)"
 
 
